@@ -28,7 +28,30 @@ def subchecks(tier):
     allowed = [f for f in common.FULL if f not in ("prio_reroute", "sched_reroute")]
     prof = common.full_profile("C06", allowed=allowed, load="heavy")
     prof.weights.update({"capacity": 0.9, "system_capacity": 0.35, "batching": 0.4, "baulking": 0.25, "zero_servers": 0.15, "ps": 0.05})
-    return [system_subcheck("lattice", prof, lambda spec: [Capacity(spec)], nontrivial, classes=classes, obs=True,
+    # batches arriving at nodes with 're-route' pre-emption: an admitted batch member can push somebody else out of the node within the same arrival
+    # event; re-routed customers overfill other nodes.  In half of the cases the system capacity equals the sum of the node capacities.
+    from .. import strategies as S
+    wb = {"capacity": 1.0, "batching": 1.0, "priorities": 1.0, "prio_preempt": 1.0, "prio_reroute": 1.0, "system_capacity": 0.5, "baulking": 0.3,
+          "self_loops": 0.3, "routing_objects": 0.3, "discipline": 0.2, "zero_service": 0.2}
+    br = S.Profile(list(wb), weights=wb, required=("capacity", "batching", "priorities", "prio_preempt", "prio_reroute"), numeric="grid", max_nodes=3,
+                   max_classes=3, plans=("max_time",), horizon=(6.0, 16.0), budget=600, load="heavy", caps=(0, 1, 1, 2), max_c=2)
+
+    def tight(spec):
+        import copy
+        spec = copy.deepcopy(spec)
+        if spec["seed"] % 2 == 0 and all(nd["servers"]["kind"] == "int" for nd in spec["nodes"]):
+            for nd in spec["nodes"]:
+                if nd.get("cap", "inf") == "inf":
+                    nd["cap"] = 1
+            spec["system_capacity"] = sum(nd["servers"]["c"] + nd["cap"] for nd in spec["nodes"]) + (1 if spec["seed"] % 6 == 0 else 0)
+        return spec
+    batch_reroute = system_subcheck("batch_reroute", br, lambda spec: [Capacity(spec, overfull_ok=True)],
+                                    lambda a, spec, res: a.get("rejections", 0) >= 1 and a.get("obs_preempt", 0) >= 1,
+                                    classes=lambda a, spec, res: classes(a, spec, res) + [k for k in ("overfull_nodes_seen", "system_full_rejections") if a.get(k)],
+                                    obs=True, spec_filter=tight, n={"quick": 3600, "thorough": 20000},
+                                    rule="batch arrivals at capacitated nodes with 're-route' pre-emption (re-routed customers may overfill nodes, as documented); "
+                                         "system capacity often exactly the sum of the node capacities; admission clauses only")
+    return [batch_reroute, system_subcheck("lattice", prof, lambda spec: [Capacity(spec)], nontrivial, classes=classes, obs=True,
                             n={"quick": 9600, "thorough": 50000}, rule="capacitated lattice; admission log vs spec capacity"),
             system_subcheck("sched_blocked", common.region_profile("C06", excluded=common.EXCL["C14"] + ("jockey_capacity",)), lambda spec: [Capacity(spec)],
                             lambda a, spec, res: a.get("rejections", 0) >= 1 and a.get("rec_interrupted_service", 0) >= 1, classes=classes, obs=True,
